@@ -467,6 +467,24 @@ def source_registration(ctx):
         ctx.ob(R, '{}|accepts-dist'.format(fi.fq), has, fi.node,
                '{} does not accept dist='.format(fi.qualname))
     ctx.require_min(R, n, 12, 'file-creating builtins')
+    # every builtin that accepts dist= forwards it to the helpers that
+    # register files (_find, find_from_filter, static_file)
+    for fi in sorted(repo.functions.values(), key=lambda f: f.fq):
+        if not fi.module.name.startswith('bfg9000.builtins'):
+            continue
+        if 'dist' not in Q.params(fi.node):
+            continue
+        for c in Q.calls(fi.node, nested=False):
+            nm = unparse(c.func)
+            if nm in ('_find', 'find_from_filter', 'static_file'):
+                d = Q.kwarg(c, 'dist')
+                if d is None and nm == 'static_file':
+                    d = Q.arg(c, 3, 'dist')
+                ok = d is not None and unparse(d) == 'dist'
+                ctx.ob(R, '{}|{}-forwards-dist'.format(fi.fq, nm), ok, c,
+                       '{} accepts dist= but calls {} without forwarding '
+                       'it: files of a dist=False object are shipped (or '
+                       'the reverse)'.format(fi.qualname, nm))
     # header_directory / directory register their files
     for fq in ('bfg9000.builtins.file_types:directory',
                'bfg9000.builtins.file_types:header_directory'):
